@@ -140,14 +140,19 @@ class InjectedFault(RuntimeError):
     pass
 
 
+class AmbiguousRows(Exception):
+    """The full array has duplicated rows: a batch row does not identify its sample."""
+
+
 def decode_ids(Xfull, Xb):
-    """Sample ids of the rows of Xb inside Xfull (rows of Xfull pairwise distinct), or None if ambiguous."""
+    """Sample ids of the rows of Xb inside Xfull; None when a row of Xb is not a row of Xfull;
+    raises AmbiguousRows when the rows of Xfull are not pairwise distinct."""
     Xfull = np.ascontiguousarray(np.asarray(Xfull, dtype=np.float64))
     table = {}
     for i, r in enumerate(Xfull):
         k = r.tobytes()
         if k in table:
-            return None
+            raise AmbiguousRows()
         table[k] = i
     out = []
     for r in np.ascontiguousarray(np.asarray(Xb, dtype=np.float64)):
